@@ -14,6 +14,7 @@
 
    Definitions only; proofs are in Proofs.v. *)
 From Verif.Base Require Import Tactics.
+From Verif.C05 Require Import Extracted.   (* regenerated from the Rust source on every run *)
 Local Open Scope N_scope.
 
 Definition id := N.                       (* 0 = the null id *)
@@ -63,11 +64,13 @@ Fixpoint insert_blob (b : iblob) (l : list iblob) : list iblob :=
   end.
 Definition sort_blobs (l : list iblob) : list iblob := fold_right insert_blob [] l.
 
-(* packfile.rs: ENTRY_LEN 37 / ENTRY_LEN_COMPRESSED 41, COMP_OVERHEAD 32, LENGTH_LEN 4 *)
-Definition entry_len (b : iblob) : N := match ib_ulen b with None => 37 | Some _ => 41 end.
-Definition hdr_size (bs : list iblob) : N := fold_left (fun acc b => acc + entry_len b) bs 32.
+(* packfile.rs: ENTRY_LEN / ENTRY_LEN_COMPRESSED, COMP_OVERHEAD, LENGTH_LEN (values from Extracted.v) *)
+Definition entry_len (b : iblob) : N :=
+  match ib_ulen b with None => x_entry_len | Some _ => x_entry_len_compressed end.
+Definition hdr_size (bs : list iblob) : N :=
+  fold_left (fun acc b => acc + entry_len b) bs x_comp_overhead.
 Definition computed_size (bs : list iblob) : N :=
-  fold_left (fun acc b => acc + ib_len b + entry_len b) bs 36.
+  fold_left (fun acc b => acc + ib_len b + entry_len b) bs (x_comp_overhead + x_length_len).
 (* IndexPack::pack_size / blob_type *)
 Definition pack_size_of (p : ipack) : N :=
   match ip_size p with Some s => s | None => computed_size (ip_blobs p) end.
@@ -283,7 +286,7 @@ Section Repo.
       if negb (sp_hash sp =? ip_id p) then [EPackHash] else
       let hl := hdr_size blobs in
       if negb (sp_trailer sp =? hl) then [EHdrLen] else
-      match read_seg sp (sp_size sp - 4 - hl) hl with
+      match read_seg sp (sp_size sp - x_length_len - hl) hl with
       | Some (PHeader hs) =>
         let sorted := sort_blobs blobs in
         if list_eqb iblob_eqb hs sorted then blob_errs sp 0 sorted else [EHdrMismatch]
